@@ -508,6 +508,26 @@ func Run(r *ev.Run) {
 			r.Eval(string(w), "decode-ok-pointer-chain")
 		}
 	}
+	// agreement on REJECTION: every strict prefix of a valid packet (cuts inside and exactly between records,
+	// header counts unchanged) is rejected by the independent codecs; so must it be by the package
+	for _, compress := range []bool{false, true} {
+		full := &dnsref.Msg{ID: 3, Flags: 0x8180, Q: []dnsref.Question{{Name: "www.example.com", Type: 65, Class: 1}}}
+		full.Sec[0], full.Sec[1], full.Sec[2] = rpool[:3], rpool[3:5], rpool[5:9]
+		wire := full.Encode(compress)
+		for cut := 0; cut < len(wire); cut++ {
+			pre := wire[:cut]
+			_, refErr := dnsref.Decode(pre)
+			var xm dnsmessage.Message
+			xErr := xm.Unpack(pre)
+			if refErr == nil || xErr == nil {
+				continue // (cannot happen for a strict prefix with unchanged counts; guards the oracle)
+			}
+			if got, err := dns.DecodeMessage(pre); err == nil {
+				r.Violation("decode-accepts-truncated-packet", fmt.Sprintf("DecodeMessage accepts the first %d of %d bytes of a packet whose header announces %d+%d+%d records (decoded %d+%d+%d); both independent codecs reject it", cut, len(wire), len(full.Sec[0]), len(full.Sec[1]), len(full.Sec[2]), len(got.Answer), len(got.Authority), len(got.Additional)), map[string]any{"wire": fmt.Sprintf("%x", pre)})
+			}
+			r.Eval("prefix:"+string(pre), "truncated-rejected")
+		}
+	}
 	// x/net-packed packets (its own compression) -> DecodeMessage
 	mustName := func(s string) dnsmessage.Name { return dnsmessage.MustNewName(s) }
 	xm := dnsmessage.Message{Header: dnsmessage.Header{ID: 7, Response: true, RecursionAvailable: true, RCode: dnsmessage.RCodeNameError},
